@@ -127,6 +127,9 @@ def cases(sh, tier):
                     continue
                 for sp in sps:
                     yield {"part": "read", "ds": did, "var": v, "idx": {d: ix}, "mode": mode, "sp": sp}
+                if mode == "position" and ix[0] in ("s", "l", "sl"):
+                    # the file stays open while the user switches the module default for [] to positions: handle[name][idx] follows it
+                    yield {"part": "read", "ds": did, "var": v, "idx": {d: ix}, "mode": mode, "sp": "getitem_optswitch"}
         if len(dims) >= 2:
             for combo in itertools.product(*[menu(d, small) for d in dims]):
                 if sum(1 for ix in combo if ix[0] != "full") < 2:
@@ -237,7 +240,15 @@ def check(case):
         else:
             o = da.open_nc(path)
             h = o[v]
-            if sp == "getitem":
+            if sp == "getitem_optswitch":
+                call(lambda: h[py(mem.axes[0].values[0])])       # a first, label-mode access through the handle
+                prev = da.rcParams["indexing.by"]
+                da.rcParams["indexing.by"] = "position"
+                try:
+                    got = call(lambda: o[v][one])
+                finally:
+                    da.rcParams["indexing.by"] = prev
+            elif sp == "getitem":
                 got = call(lambda: h[one])
             elif sp == "getitem_all":
                 got = call(lambda: h[:])
@@ -400,6 +411,36 @@ def _check_multi(case):
 TL = [2000.0, 2001.0]
 
 
+def predecessor_file(kind, path):
+    """another file that lived at the SAME path before (same variables, dimensions and sizes, other labels), opened, read by label and removed:
+    nothing the library learnt about it may be applied to the file that takes its place"""
+    xl2 = c19.XL[1:] + c19.XL[:1]
+    if kind == "fixed":
+        ds = c19.pool_dataset("DS1")
+        ds.set_axis(np.array(xl2), axis="x")
+        ds.write_nc(path, mode="w")
+    else:
+        tl2 = [t + 0.5 for t in TL]
+        o = da.open_nc(path, "w")
+        o.axes.append("time", None)
+        o.axes.append(Axis(np.array(xl2), "x"))
+        o["v"] = DimArray(np.arange(6.).reshape(2, 3) + 900, axes=[Axis(np.array(tl2), "time"), Axis(np.array(xl2), "x")])
+        o["t1"] = DimArray(np.array([1., 2.]), axes=[Axis(np.array(tl2), "time")])
+        o["w"] = DimArray(np.arange(6.).reshape(3, 2) + 950, axes=[Axis(np.array(xl2), "x"), Axis(np.array(tl2), "time")])
+        o.close()
+    o = da.open_nc(path)
+    try:
+        for k in list(o.keys()):
+            h = o[k]
+            for d in h.dims:
+                call(lambda: h.read({d: py(o.axes[d].values[0])}))
+                call(lambda: h.read({d: [py(x) for x in o.axes[d].values[:2]]}))
+    finally:
+        o.close()
+    call(da.read_nc, path)
+    os.remove(path)
+
+
 def make_file(kind, path):
     """-> dict var -> in-memory reference DimArray"""
     if kind == "fixed":
@@ -463,7 +504,7 @@ class WSpace(object):
         self.kind = kind
 
     def initial(self, tier):
-        return [[["file", self.kind]]]
+        return [[["file", self.kind]], [["file", self.kind, "after-another-file-at-this-path"]]]
 
     def events(self, hist, tier):
         return write_events(self.kind)
@@ -482,6 +523,8 @@ class WSpace(object):
         path = os.path.join(tmpdir(), "w%d_%d.nc" % (os.getpid(), abs(hash(json.dumps(hist))) % 10 ** 9))
         o = None
         try:
+            if len(hist[0]) > 2:
+                predecessor_file(self.kind, path)
             mem = make_file(self.kind, path)
             o = da.open_nc(path, "a")
             H = self._handles(o, mem)
@@ -615,7 +658,7 @@ class WSpace(object):
                                 mm = same_result(got, exp, "after {}: label read {{{!r}: {!r}}} of {} through the handle kept since open".format(hist[1:], d, lab, v))
                                 if mm:
                                     return bad(mm)
-            canon = common.digest(tuple((k, common.snap(m)) for k, m in sorted(mem.items())))
+            canon = common.digest((tuple((k, common.snap(m)) for k, m in sorted(mem.items())), tuple(hist[0][2:])))
             return ok(hist[-1][0], changed, canon=canon)
         finally:
             if o is not None:
